@@ -340,7 +340,7 @@ Definition e2e_snapshot (w : world) (k : key) : nat * nat * option bytes :=
 
 (* ---- restart: everything in memory is gone except what the components restore from their
    checkpoints; the registry starts empty and every restored live session claims its tuple again
-   (ipoe: restoreSessions -> setupSession(Restore) -> claimTuple; pppoe: restoreSessions ->
+   (ipoe: restoreSessions -> installInMemoryState -> claimTuple (d2827a3); pppoe: restoreSessions ->
    installInMemoryState -> addToIndexes) ---- *)
 Definition reclaim_ipoe (r : registry) (e : key * owner) : registry :=
   fst (component_claim proto_ipoe r (fst e) (o_sid (snd e))).
@@ -349,7 +349,7 @@ Definition reclaim_pppoe (r : registry) (e : key * bytes) : registry :=
 Definition e2e_restart (w : world) : world :=
   mkW (fold_left reclaim_pppoe (w_pp_all w) (fold_left reclaim_ipoe (w_ipoe w) new_registry))
       (w_ipoe w) (w_pp_key w) (w_pp_all w) (w_next w).
-(* the recorded defect of the ipoe restore path: sessions of the tuples in [skip] (half-established when
+(* the ipoe restore path before /repo d2827a3 (historical witness only): sessions of the tuples in [skip] (half-established when
    checkpointed, or whose dataplane restore failed) are put back into the session tables without a claim.
    Such a world can hold two sessions on one tuple, so the re-claims of a LATER restart do displace and
    evict: here all re-claims happen first (ipoe, then pppoe), then the published events are delivered. *)
